@@ -169,8 +169,32 @@ func (w *World) histCounter(h *spec.History) {
 	metrics.SetMetricsDumpFilePath(dumpPath)
 	dumped := false
 	lastHistLen := 0
+	// Snapshots taken earlier (what a dump or a GetUsers RPC holds while it serialises,
+	// concurrently with accounting) must stay what they were: later increments and
+	// compactions may not reach into them.
+	type heldSnap struct {
+		pb    *metricspb.Metric
+		total int64
+		step  int
+	}
+	var held []heldSnap
 	check := func(i int, what string) {
 		w.checks.Add(1)
+		for _, hs := range held {
+			var sum int64
+			for _, e := range hs.pb.GetHistory() {
+				sum += e.GetDelta()
+			}
+			if sum != hs.total || hs.pb.GetValue() != hs.total {
+				w.violate("C19", "held-snapshot-changed", "step %d (%s): the snapshot taken at step %d (total %d) now has value %d and a history that sums to %d", i, what, hs.step, hs.total, hs.pb.GetValue(), sum)
+			}
+		}
+		if len(held) >= 3 {
+			held = held[1:]
+		}
+		if i%7 == 0 {
+			held = append(held, heldSnap{metrics.ToMetricPB(c), total, i})
+		}
 		if got := c.Load(); got != total {
 			w.violate("C19", "counter-total-wrong", "step %d (%s): Load()=%d, sum of increments=%d", i, what, got, total)
 		}
